@@ -287,8 +287,11 @@ func av1ErrClass(err error) int {
 // aggregation-header rules of the AV1 RTP specification on a payloader output
 func checkAV1Rules(pk [][]byte, mtu int) string {
 	for i, p := range pk {
-		if len(p) > mtu || len(p) < 2 {
+		if len(p) > mtu {
 			return fmt.Sprintf("packet %d has %d bytes at MTU %d", i, len(p), mtu)
+		}
+		if len(p) < 2 {
+			return fmt.Sprintf("packet %d is an aggregation header without an element (%d byte)", i, len(p))
 		}
 		z, y, w := p[0]&0x80 != 0, p[0]&0x40 != 0, int(p[0]>>4&3)
 		if i == 0 && z {
@@ -317,7 +320,7 @@ func checkAV1Rules(pk [][]byte, mtu int) string {
 				l = int(v)
 			}
 			if l == 0 || off+l > len(p) {
-				return fmt.Sprintf("packet %d: element %d is empty or overruns", i, count)
+				return fmt.Sprintf("packet %d: element %d has no bytes or overruns the packet", i, count)
 			}
 			isContinuation := count == 1 && z
 			if !isContinuation {
@@ -364,7 +367,15 @@ func init() {
 			if !fresh {
 				o.Fail = "fragment aliases the input"
 			}
-			if mtu >= 2 {
+			// C08's clauses at every MTU, 0 and 1 included (where nothing can be sent)
+			for i, f := range frags {
+				if len(f) > int(mtu) {
+					o.Fail = fmt.Sprintf("fragment %d has %d bytes at MTU %d", i, len(f), mtu)
+				} else if len(f) == 0 && len(in) > 0 {
+					o.Fail = fmt.Sprintf("fragment %d is empty", i)
+				}
+			}
+			if mtu >= 2 && o.Fail == "" {
 				if why := checkAV1Rules(frags, int(mtu)); why != "" {
 					o.Fail = why
 				}
